@@ -1371,6 +1371,7 @@ class Container:
         for substance, value in new_container.contents.items():
             substance_unit = 'U' if substance.is_enzyme() else config.moles_storage_unit
             new_container.volume += Unit.convert_from(substance, value, substance_unit, config.volume_storage_unit)
+        new_container.volume = round(new_container.volume, config.internal_precision)
 
         new_container.instructions = self.instructions
         classes = {Substance.SOLID: 'solid', Substance.LIQUID: 'liquid', Substance.ENZYME: 'enzyme'}
